@@ -2115,8 +2115,9 @@ class Process:
                 # it means thread disappeared on us
                 hit_enoent = True
                 continue
-            # ignore the first two values ("pid (exe)")
-            st = st[st.find(b')') + 2 :]
+            # ignore the first two values ("pid (exe)"); the name may
+            # contain spaces and parentheses, so look for the last ")"
+            st = st[st.rfind(b')') + 2 :]
             values = st.split(b' ')
             utime = float(values[11]) / CLOCK_TICKS
             stime = float(values[12]) / CLOCK_TICKS
